@@ -1642,6 +1642,10 @@ func callBin(n *node) {
 		n.exec = func(f *frame) bltn {
 			val := make([]reflect.Value, l+1)
 			val[0] = value(f)
+			if n.action == aCallSlice {
+				// The deferred function is invoked by Call: pass the slice as is to the variadic parameter.
+				val[0] = callSliceFunc(val[0])
+			}
 			for i, v := range values {
 				val[i+1] = detachedCopy(getBinValue(getMapType, v, f))
 			}
@@ -1760,6 +1764,23 @@ func callBin(n *node) {
 			}
 		}
 	}
+}
+
+// callSliceFunc returns a non variadic function which calls the variadic
+// function fn with its last argument as the variadic slice.
+func callSliceFunc(fn reflect.Value) reflect.Value {
+	t := fn.Type()
+	in := make([]reflect.Type, t.NumIn())
+	for i := range in {
+		in[i] = t.In(i)
+	}
+	out := make([]reflect.Type, t.NumOut())
+	for i := range out {
+		out[i] = t.Out(i)
+	}
+	return reflect.MakeFunc(reflect.FuncOf(in, out, false), func(args []reflect.Value) []reflect.Value {
+		return fn.CallSlice(args)
+	})
 }
 
 func getIndexBinMethod(n *node) {
